@@ -1,0 +1,193 @@
+//go:build verif
+// +build verif
+
+package logical
+
+import (
+	"sort"
+
+	"com.tuntun.rangers/node/src/common"
+	"com.tuntun.rangers/node/src/consensus/groupsig"
+	"com.tuntun.rangers/node/src/consensus/model"
+	"com.tuntun.rangers/node/src/core"
+	"com.tuntun.rangers/node/src/middleware"
+	"com.tuntun.rangers/node/src/middleware/log"
+	"com.tuntun.rangers/node/src/middleware/types"
+)
+
+// VerifC15Round is a Processor holding one SignParty whose round0 has been
+// given the facts round0.Update/afterPreArrived/checkBlock establish for an
+// accepted proposal (header, previous header, group, party id changed to the
+// block hash). Everything after that point is the unmodified code:
+// Processor.OnMessageVerify -> loadOrNewSignParty -> baseParty.Update ->
+// round1.Start/Update -> round2.Start/checkSignature.
+type VerifC15Round struct {
+	P     *Processor
+	Party *SignParty
+	r0    *round0
+}
+
+const verifC15Kick = "verif-c15-kick"
+
+// VerifC15NewRound creates the party in round0 (real SignParty.Start), lets it
+// store `early` (verify messages that arrive before the proposal has been
+// checked; baseParty.Update files them as future messages) and injects the
+// proposal facts. Call Enter to let the party advance into round1.
+func VerifC15NewRound(chain core.BlockChain, group *model.GroupInfo, preBH, bh *types.BlockHeader,
+	mi groupsig.ID, logger log.Logger, early []*model.ConsensusVerifyMessage) (*VerifC15Round, *Error) {
+	p := &Processor{}
+	p.partyManager = make(map[string]Party, 10)
+	p.partyLock = middleware.NewLoglock("partyLock")
+	p.logger = logger
+	p.finishedParty = common.CreateLRUCache(300)
+	p.futureMessages = common.CreateLRUCache(50)
+	p.MainChain = chain
+
+	key := bh.Hash.String()
+	party := &SignParty{blockchain: chain, mi: mi,
+		baseParty: baseParty{
+			logger:         logger,
+			futureMessages: make(map[string]model.ConsensusMessage),
+			Done:           make(chan byte, 1),
+			Err:            make(chan error, 1),
+			id:             key,
+		},
+	}
+	if err := party.Start(); err != nil {
+		return nil, err
+	}
+	r0 := party.rnd.(*round0)
+	for _, m := range early {
+		party.Update(m)
+	}
+	r0.bh = bh
+	r0.preBH = preBH
+	r0.group = group
+	r0.isSend = false
+	r0.partyId = key
+	r0.processed[verifC15Kick] = 1
+	p.partyManager[key] = party
+	return &VerifC15Round{P: p, Party: party, r0: r0}, nil
+}
+
+// Enter marks round0 as passed and runs baseParty.Update's own advance loop
+// (with a message round0 rejects as already processed), which calls
+// round0.NextRound and round1.Start, and round2.Start if the stored future
+// messages already reach the threshold.
+func (v *VerifC15Round) Enter() {
+	v.r0.canProcessed = true
+	v.Party.Update(&model.ConsensusVerifyMessage{Id: verifC15Kick})
+}
+
+// VerifC15Share is one entry of a groupSignGenerator's witness map.
+type VerifC15Share struct {
+	IdHex string
+	Sig   groupsig.Signature
+}
+
+// VerifC15State is a snapshot of what the signing round has collected.
+type VerifC15State struct {
+	Round        int  // -1 when the party has no round left
+	CanProcessed bool
+	Finished     bool // round2.Start ran
+	Threshold    int
+	GSign, RSign []VerifC15Share // sorted by id
+	GRecovered   bool
+	RRecovered   bool
+	GGroupSign   groupsig.Signature
+	RGroupSign   groupsig.Signature
+	InManager    bool // Processor still routes messages for the block hash to this party
+	Done         bool // the block hash is in Processor.finishedParty
+	Processed    []string
+	Future       []string
+}
+
+func verifC15Shares(g *groupSignGenerator) []VerifC15Share {
+	out := make([]VerifC15Share, 0)
+	if g == nil {
+		return out
+	}
+	for k, s := range g.witnessSignMap {
+		out = append(out, VerifC15Share{IdHex: k, Sig: s})
+	}
+	sort.Slice(out, func(i, j int) bool { return out[i].IdHex < out[j].IdHex })
+	return out
+}
+
+func (v *VerifC15Round) State() VerifC15State {
+	v.Party.lock()
+	defer v.Party.unlock()
+	st := VerifC15State{Round: -1}
+	var r1 *round1
+	switch r := v.Party.rnd.(type) {
+	case *round0:
+		st.Round = r.RoundNumber()
+		st.CanProcessed = r.canProcessed
+	case *round1:
+		r1 = r
+	case *round2:
+		r1 = r.round1
+		st.Finished = r.finished
+	}
+	if r1 != nil {
+		st.Round = r1.RoundNumber()
+		st.CanProcessed = r1.canProcessed
+		if r1.gSignGenerator != nil {
+			st.Threshold = r1.gSignGenerator.threshold
+			st.GSign = verifC15Shares(r1.gSignGenerator)
+			st.RSign = verifC15Shares(r1.rSignGenerator)
+			st.GRecovered = r1.gSignGenerator.SignRecovered()
+			st.RRecovered = r1.rSignGenerator.SignRecovered()
+			st.GGroupSign = r1.gSignGenerator.GetGroupSign()
+			st.RGroupSign = r1.rSignGenerator.GetGroupSign()
+		}
+	}
+	for k := range v.r0.processed {
+		if k != verifC15Kick {
+			st.Processed = append(st.Processed, k)
+		}
+	}
+	for k := range v.r0.futureMessages {
+		st.Future = append(st.Future, k)
+	}
+	sort.Strings(st.Processed)
+	sort.Strings(st.Future)
+	v.P.partyLock.Lock("verif")
+	_, st.InManager = v.P.partyManager[v.Party.id]
+	st.Done = v.P.finishedParty.Contains(v.Party.id)
+	v.P.partyLock.Unlock("verif")
+	return st
+}
+
+// Settle does, synchronously, what Processor.waitUntilDone does when the party
+// reports an error or completion (its local closure `fn`): close the party,
+// drop it from partyManager and remember its id as finished. It returns
+// "err", "done" or "" (nothing pending) and the error.
+func (v *VerifC15Round) Settle() (string, error) {
+	end := func() {
+		v.P.partyLock.Lock("verif")
+		defer v.P.partyLock.Unlock("verif")
+		v.Party.Close()
+		delete(v.P.partyManager, v.Party.id)
+		v.P.finishedParty.Add(v.Party.id, 0)
+	}
+	select {
+	case err := <-v.Party.Err:
+		end()
+		return "err", err
+	case <-v.Party.Done:
+		end()
+		return "done", nil
+	default:
+		return "", nil
+	}
+}
+
+// StrayFuture reports how many messages Processor.futureMessages holds under key.
+func (v *VerifC15Round) StrayFuture(key string) int {
+	raw, ok := v.P.futureMessages.Get(key)
+	if !ok {
+		return 0
+	}
+	return len(raw.([]model.ConsensusMessage))
+}
